@@ -2,6 +2,7 @@
     harness/props/C36.py: the same programs / values go through the real expression API (no backend) and through [elab] /
     [impute]; reported dtype, emitted IR (up to the numbering of generated variable names) and IR type must coincide. *)
 From HailV Require Import Common.Prelude Typing.Model Typing.ElabSound Typing.ImputeSound Typing.Main.
+From HailV Require Import Typing.TableModel Typing.TableSound.
 
 (** For EVERY program over the modelled expression API (literals; + - * // / and unary - with numeric promotion, bool counted
     as int32; ~; comparisons; if_else; bind; struct / field access / annotate / select / drop; array / len / indexing; map /
@@ -25,3 +26,38 @@ Print Assumptions C36_elab_sound.
 Theorem C36_literal_typed : forall (v : pv) (t : ty), impute v = Some t -> has_type t v = true.
 Proof. exact impute_sound. Qed.
 Print Assumptions C36_literal_typed.
+
+(** *** Table / MatrixTable level (model: Typing/TableModel.v, proofs: Typing/TableSound.v) *)
+
+(** For EVERY program over range_table / key_by / annotate / select / drop / annotate_globals / filter / annotate with a lookup
+    [r.index(k1, .., all_matches)] by non-key expressions (exact key: TableLeftJoinRightDistinct; interval key indexed by a
+    point: TableIntervalJoin with the product flag) / rows() / cols() / entries() / range_matrix_table / annotate_rows / _cols /
+    _entries / _globals / key_rows_by / key_cols_by / annotate_rows with a lookup into an interval-keyed table
+    (MatrixAnnotateRowsTable with the product flag): when the front end accepts the program and reports the table / matrix
+    table type [t] (globals, row, key; col, col key, entry — built from the dtypes it DECLARES for the expressions, among
+    them the dtype of the lookup expression), the relational IR it emits has type [t] under the engine's rules, every value
+    IR re-typed from scratch in the environment its node binds.
+    PARTIAL: under the guard [simple_interval_keys] (see [C36_table_type_agreement_refuted] for what fails without it). *)
+Theorem C36_table_type_agreement_partial : forall (p : prog) (t : rty),
+  reported p = Some t -> simple_interval_keys p = true -> exists x, emitted p = Some x /\ strict_type x = Some t.
+Proof. exact table_type_agreement_partial. Qed.
+Print Assumptions C36_table_type_agreement_partial.
+
+(** The same on the pair the front end builds. *)
+Theorem C36_telab_sound : forall (p : prog) (t : rty) (x : rir),
+  telab p = Some (t, x) -> simple_interval_keys p = true -> strict_type x = Some t.
+Proof. exact telab_sound. Qed.
+Print Assumptions C36_telab_sound.
+
+(** Without the guard the statement is FALSE on the code as it is: two programs the front end accepts whose
+    MatrixAnnotateRowsTable the engine's TypeCheck rejects (replayed on the real front end by the oracle:
+    corpus/C36/t-matrix-interval-compound-key.json, t-matrix-interval-row-key-type.json). *)
+Theorem C36_table_type_agreement_refuted :
+  (exists t x, telab ex_refuted_compound_key = Some (t, x) /\ strict_type x = None) /\
+  (exists t x, telab ex_refuted_row_key_type = Some (t, x) /\ strict_type x = None).
+Proof. exact table_type_agreement_refuted. Qed.
+Print Assumptions C36_table_type_agreement_refuted.
+
+Theorem C36_table_type_agreement_full_fails : ~ table_type_agreement_full.
+Proof. exact table_type_agreement_full_fails. Qed.
+Print Assumptions C36_table_type_agreement_full_fails.
